@@ -43,6 +43,19 @@ def filler(seed: int, label: str, n: int) -> bytes:
     return out[:n]
 
 
+def lookalikes(n: int):
+    """byte strings of length n that look like TEXT: ASCII hex digits, decimal digits, whitespace, base58/bech32 characters.
+    A change that sniffs the representation of its input ("is this already hex?") misbehaves exactly on these."""
+    pats = [b"deadbeefcafebabe0123456789abcdef", b"0123456789", b"00", b" \t\n\x0c", b"20 ", b"ABCDEF0123456789", b"xpub1tpubxprvtprvbc1q",
+            b"123456789ABCDEFGHJKLMNPQRSTUVWXYZabcdefghijkmnopqrstuvwxyz"]
+    out = []
+    for p in pats:
+        b = (p * (n // len(p) + 1))[:n]
+        if b not in out:
+            out.append(b)
+    return out
+
+
 def scratch_dir() -> str:
     base = "/dev/shm" if os.path.isdir("/dev/shm") and os.access("/dev/shm", os.W_OK) else (
         os.environ.get("TMPDIR") or "/tmp")
